@@ -292,6 +292,9 @@ func (th *Thread) equals(x, y Value) *Term {
 		}
 	case *Opaque:
 		yv, ok := y.(*Opaque)
+		if ok && xv.kind == "rtype" && yv.kind == "rtype" {
+			return mkBool(types.Identical(xv.data.(types.Type), yv.data.(types.Type)))
+		}
 		return mkBool(ok && (xv == yv || (xv.kind == yv.kind && xv.data != nil && xv.data == yv.data)))
 	}
 	st.abort("equals: unsupported operands %T, %T", x, y)
